@@ -1,6 +1,7 @@
 //! gv <PROPERTY> <quick|thorough> [--replay <file>]
 //! exit 0 = held (or only known findings), 1 = violation, 2 = cannot decide.
 use gvlib::ctx::*;
+use gvlib::c15;
 use gvlib::c20;
 use gvlib::container;
 use gvlib::contmap;
@@ -28,6 +29,7 @@ fn run_property(prop: &str, ctx: &mut Ctx) {
         "C10" => searchrun::run("C10", ctx),
         "C11" => container::run_c11(ctx),
         "C12" => container::run_c12(ctx),
+        "C15" => c15::run(ctx),
         "C18" => contmap::run(ctx),
         "C19" => drops::run(ctx),
         "C20" => c20::run(ctx),
@@ -47,6 +49,7 @@ fn replay_case(prop: &str, v: &Value, st: &mut Stats) -> Result<(), String> {
         "C04" | "C05" | "C06" | "C07" | "C08" | "C09" | "C10" => searchrun::replay(prop, case, st),
         "C11" => container::replay_c11(case, st),
         "C12" => container::replay_c12(case, st),
+        "C15" => c15::replay(case, st),
         "C18" => contmap::replay(case, st),
         "C19" => drops::replay(case, st),
         "C20" => c20::replay(case, st),
